@@ -6,6 +6,7 @@
    [row_nondegenerate], [coplanar], [sim3], [is_rotation], [rot3] (proofs/C13_Norm3dAlg.v, C13_Norm3dT.v, C13_Norm3dW.v). *)
 From Coq Require Import Reals List.
 Require Import Result Num C13_Normalize C13_Norm3d C13_Lookup Gen_C13.
+Require Import C13_Axes C13_AxesP.
 Require Import C13_RBase C13_NormalizeP C13_DistP C13_Norm3dP C13_Norm3dAlg C13_Norm3dT C13_Norm3dW C13_LookupP C13_Examples C13_GenTie.
 Import ListNotations.
 Open Scope R_scope.
@@ -43,23 +44,39 @@ Print Assumptions normalize_hypotheses_satisfiable.
    [key]; a leading block of axes is key i = i mod G) that has an observed cell and a non-zero deviation *)
 Theorem distribution_post : forall (key : nat -> nat) (G : nat), (forall i, (key i < G)%nat) ->
   forall (cs : list (cell R_ops)) (g : nat), observed key cs g -> gstd R_ops key cs g <> 0 ->
-  let out := fst (normalize_distribution R_ops key G cs) in
+  let out := fst (normalize_distribution R_ops key key G cs) in
   gmean R_ops key out g = 0 /\ gstd R_ops key out g = 1.
 Proof. exact C13_DistP.distribution_post. Qed.
 Print Assumptions distribution_post.
 
 Theorem distribution_mask_unchanged : forall (key : nat -> nat) (G : nat), (forall i, (key i < G)%nat) ->
-  forall cs : list (cell R_ops), map cm (fst (normalize_distribution R_ops key G cs)) = map cm cs.
+  forall cs : list (cell R_ops), map cm (fst (normalize_distribution R_ops key key G cs)) = map cm cs.
 Proof. exact C13_DistP.distribution_mask_unchanged. Qed.
 Print Assumptions distribution_mask_unchanged.
 
 (* unnormalize_distribution with the returned statistics restores the original *)
 Theorem unnormalize_inverse : forall (key : nat -> nat) (G : nat), (forall i, (key i < G)%nat) ->
   forall cs : list (cell R_ops), (forall g, observed key cs g -> gstd R_ops key cs g <> 0) ->
-  let r := normalize_distribution R_ops key G cs in
+  let r := normalize_distribution R_ops key key G cs in
   cfilled R_ops (unnormalize_distribution R_ops key (fst (snd r)) (snd (snd r)) (fst r)) = cfilled R_ops cs.
 Proof. exact C13_DistP.unnormalize_inverse. Qed.
 Print Assumptions unnormalize_inverse.
+
+(* REFUTED for axis tuples that are not a leading block of axes: the returned statistics (no keepdims) are broadcast
+   right-aligned against the wrong axes.  Shape (2, 2, 1, 1), axis = (1,): every group is observed with non-zero
+   deviation, yet the mean of group 0 after normalisation is not 0.  ([nl_g], [nl_b]: grouping / broadcast keys of
+   that shape, see distribution_nonleading_keys.)  When the extents do not happen to coincide the call raises. *)
+Theorem distribution_nonleading_refuted :
+  (forall g, (g < 2)%nat -> observed nl_g nl_cells g /\ gstd R_ops nl_g nl_cells g <> 0) /\
+  gmean R_ops nl_g (fst (normalize_distribution R_ops nl_g nl_b 2 nl_cells)) 0 <> 0.
+Proof. exact C13_DistP.distribution_nonleading_refuted. Qed.
+Print Assumptions distribution_nonleading_refuted.
+Theorem distribution_nonleading_keys :
+  broadcast_ok [2; 2; 1; 1]%nat [1%nat] = true /\ groups_of [2; 2; 1; 1]%nat [1%nat] = 2%nat /\
+  map (gkey_of [2; 2; 1; 1]%nat [1%nat]) (seq 0 4) = map nl_g (seq 0 4) /\
+  map (bkey_of [2; 2; 1; 1]%nat [1%nat]) (seq 0 4) = map nl_b (seq 0 4).
+Proof. exact C13_AxesP.nonleading_keys. Qed.
+Print Assumptions distribution_nonleading_keys.
 
 Example distribution_hypotheses_satisfiable :
   (forall i, (ex_key i < 2)%nat) /\ observed ex_key ex_cells 0 /\ observed ex_key ex_cells 1 /\
